@@ -20,6 +20,9 @@ ASSUMPTIONS = [
     "bitwise-identical point (the documented one-entry cache)",
     "the metamorphic replay feeds each function the logged values in call order; any call at another point "
     "or beyond the logged calls raises and is reported",
+    "one user function in eight works in place on the array it receives (overwrites it after computing its "
+    "value): the other functions of the same evaluation must still be called at the evaluation point, which the "
+    "pinned code guarantees by handing each function its own copy",
 ]
 
 PROFILE = dict(
@@ -28,6 +31,7 @@ PROFILE = dict(
     max_lin=1, max_nl=3, nl_forms=[("NC", 3), ("dict", 1)], faults=10, maxfev=(2, 50), opt_prob=25,
     callback_prob=20, stop_prob=15, scale_prob=40, debug_prob=30, disp_prob=25, target_prob=10,
     bound_pats=[("free", 2), ("lower", 2), ("upper", 2), ("two", 5), ("fixed", 3), ("narrow", 1)],
+    mutate_prob=12,
 )
 
 
